@@ -380,7 +380,15 @@ class Exec:
                 if not any(re.search(o, callee) for o in self.opaque):
                     raise Unsupported("call %r" % callee)
                 self.fresh += 1
-                env[m.group(1)] = Val(self.locals.get(m.group(1), "?"), None, {"__opaque__": callee, "__id__": self.fresh})
+                f = {"__opaque__": callee, "__id__": self.fresh}
+                ma = re.match(r"^.*?\((.*)\)$", callee)
+                if ma:
+                    for ai, a in enumerate(self.split_args(ma.group(1))):
+                        try:
+                            f["arg%d" % ai] = self.operand(a, env)
+                        except Unsupported:
+                            pass
+                env[m.group(1)] = Val(self.locals.get(m.group(1), "?"), None, f)
                 return self.step(m.group(3), env, pc, depth + 1)
             m = re.match(r"^(_\d+) = (.*)$", s)
             if m:
